@@ -1,7 +1,7 @@
 #!/bin/bash
 # tools/runall.sh [tier] [seed]: runs every claimed check once, prints verdict and wall time
 TIER=${1:-quick}; SEED=${2:-1}
-cd /verif
+cd "$(dirname "$0")/.."
 for p in $(python3 -c "import json;print(' '.join(c['property_id'] for c in json.load(open('MANIFEST.json'))['checks']))"); do
   t0=$(date +%s)
   out=$(VERIF_SEED=$SEED ./vcheck $p --tier $TIER 2>&1); rc=$?
